@@ -6,6 +6,7 @@ of Props/C08.lean are about.
 -/
 import Desverif.Model.Gate
 import Desverif.Spec.Paths
+import Desverif.Spec.ChainSrv
 import Driver.Common
 namespace Driver.C08
 open Driver Gate
@@ -33,6 +34,7 @@ structure Link where
   delay : Option Nat
   lat : Nat := 0
   br : Nat := 0
+  cap : Option Nat := none      -- queue capacity in messages (`q=<bytes>` / 64)
 
 structure St where
   n : Nat                                   -- gate ids are < n (fuel of the walks)
@@ -177,6 +179,9 @@ structure Stats where
   fwdlegs : Nat := 0      -- delivered legs of forwarded messages (second and later legs)
   restamped : Nat := 0    -- deliveries whose header held a different, stale receiver id before
   wantsfwd : Nat := 0     -- sends with forwarding legs or an explicit receiver id
+  bursts : Nat := 0       -- bursts (>= 2 messages back to back)
+  queuedInner : Nat := 0  -- burst messages that had to wait for a channel on a hop entered at a transit gate
+  qdropped : Nat := 0     -- burst messages dropped by a full queue
 
 def maxGate (body : List String) : Nat := Id.run do
   let mut n := 0
@@ -185,6 +190,23 @@ def maxGate (body : List String) : Nat := Id.run do
     | "gate" :: g :: _ => if let some j := ident 'g' g then n := max n (j + 1)
     | _ => pure ()
   return n
+
+/-- the hops of a route as FIFO servers -/
+def St.hopsOf (st : St) (route : List Nat) : List ChainSrv.Hop :=
+  (route.zip route.tail).map fun p =>
+    match st.link? p.1 p.2 with
+    | some l => match l.delay with
+      | some d => { lat := l.lat, tx := d - l.lat, cap := l.cap }
+      | none => { lat := 0, tx := 0, cap := none }
+    | none => { lat := 0, tx := 0, cap := none }
+
+/-- one answer segment per message of a burst that travels `route` (first gate `g`), all offered at `t0` -/
+def burstAnswer (st : St) (g : Nat) (route : List Nat) (n t0 : Nat) : String :=
+  let far := (route.getLast?).getD g
+  let outs := ChainSrv.serveChain (st.hopsOf route) (List.replicate n (some t0))
+  " ; ".intercalate (outs.map fun o => match o with
+    | some t => s!"n=1 rx={mname (st.ownerOf far)} t={t} sender={mname (st.ownerOf g)} receiver={mname (st.ownerOf far)} last={gname far}"
+    | none => "n=0")
 
 /-- channel arguments of a (l)connect line and the transmission time the implementation reported:
     `(delay, lat, br)` or an error text -/
@@ -261,7 +283,7 @@ def runCase (c : Case) : String := Id.run do
           s := { s with links := s.links + 1 }
           if br > 0 then s := { s with brlinks := s.brlinks + 1 }
           if sp'.rings.length != st.sp.rings.length then s := { s with rings := s.rings + 1 }
-          st := { st with links := { a := a, b := b, delay := ch, lat := lat, br := br } :: st.links }
+          st := { st with links := { a := a, b := b, delay := ch, lat := lat, br := br, cap := (kvNat rest "q").map (· / 64) } :: st.links }
         else if exp == .noop then s := { s with noops := s.noops + 1 }
         else s := { s with panics := s.panics + 1 }
         st := { st with net := net', sp := sp' }
@@ -326,6 +348,43 @@ def runCase (c : Case) : String := Id.run do
             | [g, d] => d.toNat?.map fun d => (if g == "back" then none else ident 'g' g, d)
             | _ => none
         s := { s with sends := s.sends + 1 }
+        let burst := (kvNat rest "burst").getD 1
+        if burst ≥ 2 then
+          -- a burst: the route from the model's walk resp. the abstract path, the timing from the FIFO servers
+          s := { s with bursts := s.bursts + 1 }
+          let t0 := at0 + delay0
+          let (ms, ss) :=
+            if !st.active (st.ownerOf g0) at0 then (" ; ".intercalate (List.replicate burst "n=0"), " ; ".intercalate (List.replicate burst "n=0"))
+            else
+              let m := if ((st.netAt build at0) g0).len ≤ 1 then
+                  burstAnswer st g0 (gatesOf g0 (walk (st.netAt build t0) st.n g0 true)) burst t0
+                else "skipped-transit"
+              let sp := match Paths.walkFrom (st.spAt buildSp at0) g0 with
+                | none => "skipped-transit"
+                | some _ => burstAnswer st g0 (specRoute st buildSp (st.n + 1) g0 none t0) burst t0
+              (m, sp)
+          if impl != ss then
+            return s!"fail {id} op={i} kind=reject line=[{lhs}] spec=[{ss}] model=[{ms}] impl=[{impl}]"
+          if impl != ms then
+            return s!"fail {id} op={i} kind=diverge line=[{lhs}] spec=[{ss}] model=[{ms}] impl=[{impl}]"
+          -- statistics: who had to wait, and where
+          let route := specRoute st buildSp (st.n + 1) g0 none t0
+          if route.length ≥ 3 then s := { s with multihopSends := s.multihopSends + 1 }
+          s := { s with maxhops := max s.maxhops (route.length - 1) }
+          let hops := st.hopsOf route
+          let mut arr : List (Option Nat) := List.replicate burst (some t0)
+          let mut hi := 0
+          for h in hops do
+            let out := ChainSrv.serveHop h 0 [] arr
+            let waited := ((arr.zip out).filter fun p => match p.1, p.2 with
+              | some a, some o => o > a + h.tx + h.lat
+              | _, _ => false).length
+            if hi ≥ 1 then s := { s with queuedInner := s.queuedInner + waited }
+            s := { s with qdropped := s.qdropped + ((arr.zip out).filter fun p => p.1.isSome && p.2.isNone).length }
+            arr := out
+            hi := hi + 1
+          if hops.any (·.tx > 0) then s := { s with brsends := s.brsends + 1 }
+          continue
         if !legs.isEmpty || rcv.isSome then s := { s with wantsfwd := s.wantsfwd + 1 }
         -- model: every leg through `sendH`, the header handed from leg to leg
         let mut segsM : List String := []
@@ -424,11 +483,12 @@ def runCase (c : Case) : String := Id.run do
   -- non-trivial: a chain of >= 3 hops was walked and a message crossed (or was dropped on) a chain of >= 2 hops;
   -- with shut-down modules additionally >= 1 message met an inactive owner (dropped in transit or ignored on arrival);
   -- with finite-bitrate links >= 1 message crossed one; with run-time connects >= 1 delayed send was issued on a gate
-  -- that was still unconnected and got wired before the send time; with forwarded messages / explicit receiver ids
+  -- that was still unconnected and got wired before the send time; with bursts >= 1 message that had to wait for a busy
+  -- channel on a hop entered at a transit gate; with forwarded messages / explicit receiver ids
   -- (and >= 2 modules owning gates) >= 1 delivery of a message whose header held a different (stale) receiver id
   let nt := s.maxhops ≥ 3 && s.multihopSends ≥ 1 && s.links ≥ 3 && (st.down.isEmpty || s.drops + s.unseen ≥ 1)
-    && (s.brlinks == 0 || s.brsends ≥ 1) && (s.late == 0 || s.unwired ≥ 1) && (s.wantsfwd == 0 || s.restamped ≥ 1 || (st.owner.map (·.2)).eraseDups.length ≤ 1)
-  return s!"ok {id} nt={if nt then 1 else 0} ops={i} links={s.links} noops={s.noops} panics={s.panics} rings={s.rings} walks={s.walks} sends={s.sends} multihop={s.multihopSends} delayed={s.delayed} maxhops={s.maxhops} downmods={st.down.length} drops={s.drops} unseen={s.unseen} senderdown={s.senderdown} late={s.late} unwired={s.unwired} brlinks={s.brlinks} brsends={s.brsends} zerolat={s.zerolat} fwdlegs={s.fwdlegs} restamped={s.restamped} wantsfwd={s.wantsfwd}"
+    && (s.brlinks == 0 || s.brsends ≥ 1) && (s.late == 0 || s.unwired ≥ 1) && (s.bursts == 0 || s.queuedInner ≥ 1) && (s.wantsfwd == 0 || s.restamped ≥ 1 || (st.owner.map (·.2)).eraseDups.length ≤ 1)
+  return s!"ok {id} nt={if nt then 1 else 0} ops={i} links={s.links} noops={s.noops} panics={s.panics} rings={s.rings} walks={s.walks} sends={s.sends} multihop={s.multihopSends} delayed={s.delayed} maxhops={s.maxhops} downmods={st.down.length} drops={s.drops} unseen={s.unseen} senderdown={s.senderdown} late={s.late} unwired={s.unwired} brlinks={s.brlinks} brsends={s.brsends} zerolat={s.zerolat} fwdlegs={s.fwdlegs} restamped={s.restamped} wantsfwd={s.wantsfwd} bursts={s.bursts} queuedinner={s.queuedInner} qdropped={s.qdropped}"
 
 def main (stdin : IO.FS.Stream) : IO Unit := do
   let cases ← readCases stdin
